@@ -145,6 +145,19 @@ def gen_program(seed):
             else:
                 out.append(f"use {m}::*")
         calls.append(" + ".join(f"{f}({r.randint(1, 9)}.0) * {100 ** j}.0" for j, f in enumerate(shared)))
+    if r.random() < 0.4:   # the SAME bare type name declared in two modules and used unqualified inside them (the fallback that
+        # resolves a bare type name by the suffix of the mangled names must not pick by hash order: seeded C15d took the first match)
+        tn = ident(r, used, True)
+        ma, mb, fa, fb = ident(r, used), ident(r, used), ident(r, used), ident(r, used)
+        f1, f2, f3 = sorted([ident(r, used), ident(r, used), ident(r, used)])
+        kind = r.randrange(2)
+        if kind == 0:
+            out.append(f"mod {ma} {{\n  type alias {tn} = {{{f1}:float, {f2}:float, {f3}:float}}\n  pub fn {fa}(x) {{\n    let q:{tn} = {{{f1} = 7.0, {f2} = x, {f3} = 2.0}}\n    q.{f2} * 10.0 + q.{f3}\n  }}\n}}")
+            out.append(f"mod {mb} {{\n  type alias {tn} = {{{f2}:float, {f3}:float}}\n  pub fn {fb}(x) {{\n    let q:{tn} = {{{f2} = x, {f3} = 3.0}}\n    q.{f2} + q.{f3} * 100.0\n  }}\n}}")
+        else:
+            out.append(f"mod {ma} {{\n  type alias {tn} = (float, float, float)\n  pub fn {fa}(x) {{\n    let q:{tn} = (7.0, x, 2.0)\n    q.1 * 10.0 + q.2\n  }}\n}}")
+            out.append(f"mod {mb} {{\n  type alias {tn} = float\n  pub fn {fb}(x) {{\n    let q:{tn} = x\n    q * 100.0\n  }}\n}}")
+        calls.append(f"{ma}::{fa}({r.randint(1, 9)}.0) + {mb}::{fb}({r.randint(1, 9)}.0)")
     if r.random() < 0.15:  # a type error whose message prints a record type
         fs = [ident(r, used) for _ in range(r.randint(2, 3))]
         rv = ident(r, used)
